@@ -1,6 +1,12 @@
-LEVEL = 'proof'
-MANIFEST = None          # filled in when the check is registered (tools/manifest.py lists the property as not_applicable until then)
+"""Check for C08: the union of the units every contract area contributes (vf/areas.py).
+Level claimed, engines and notes live in props/entries.json (tools/manifest.py generates MANIFEST.json from it)."""
+import json
+import os
+
+_E = json.load(open(os.path.join(os.path.dirname(__file__), 'entries.json'))).get('C08', {})
+LEVEL = _E.get('level', 'proof')
 TRUSTED = ['CPython semantics as modelled by PYVC (DESIGN.md 2.3)', 'z3 5.1 / cvc5 1.0.3']
+EXPLANATION = _E.get('text', '')
 
 
 def units(tier):
